@@ -114,7 +114,14 @@ def generate(rng, tier):
             cases.append([undelayed_ring, connect_ring, sc.gen_relay2_ring, sc.gen_pull_ring][(i // 10) % 4](rng))
         else:
             cases.append(sc.gen_dag(rng, cyclic=True, late_start=False))
+    # rings resolved by a CALENDAR delay: monitor only (outside the integer-time Coq model)
+    for _ in range(20 if tier == "quick" else 300):
+        cases.append(sc.gen_calendar_ring(rng))
     return cases
+
+
+def model_applies(case):
+    return not sc.has_calendar(case)
 
 
 def cycles_of(case):
@@ -188,6 +195,9 @@ def _connect_expect(case):
 
 
 def monitor(case, obs):
+    if sc.has_calendar(case):
+        # one month of delay on the closing link covers the steps (days) of the ring: the run must complete
+        return sc.monitor_calendar(case, obs) or c01.monitor(case, obs)
     exp_stuck = _connect_expect(case)
     if obs["phase"] != "run":
         if obs["outcome"] == "CircularCoupling":
@@ -219,7 +229,7 @@ def nontrivial(case, obs):
 
 def extra_evidence(cases, obss):
     from collections import Counter
-    return {"cycle_classes": dict(Counter(classify(c) for c in cases))}
+    return {"cycle_classes": dict(Counter("calendar" if sc.has_calendar(c) else classify(c) for c in cases))}
 
 
 classifiers = c01.classifiers
